@@ -20,7 +20,7 @@ def F(x):
 # ----------------------------------------------------------------------------- generation
 
 
-def gen_tree(rng, ndim, levelmin, levelmax, nx, refine_p=0.45, max_octs=60, chain=False):
+def gen_tree(rng, ndim, levelmin, levelmax, nx, refine_p=0.45, max_octs=60, chain=False, chain_pick=None):
     """Octs as dicts: id, level (1-based), centre (coarse units, incl. boundary offset), sons.
     `chain`: below levelmin exactly one cell per oct is refined, down to levelmax (a deep zoom: few octs, many levels)."""
     twotondim = 2 ** ndim
@@ -35,14 +35,14 @@ def gen_tree(rng, ndim, levelmin, levelmax, nx, refine_p=0.45, max_octs=60, chai
     def refine(o):
         lvl = o["level"]
         h = Fraction(1, 2 ** lvl)
-        pick = rng.randrange(twotondim) if chain else None
+        pick = (chain_pick(o) if chain_pick else rng.randrange(twotondim)) if chain else None
         for ind in range(twotondim):
             bits = [(ind >> k) & 1 for k in range(ndim)]   # ix = bit 0, iy = bit 1, iz = bit 2
             c = [o["centre"][k] + (bits[k] - Fraction(1, 2)) * h for k in range(ndim)]
             must = lvl < levelmin
             may = lvl < levelmax and len(octs) < max_octs and rng.random() < refine_p
             if chain:
-                may = ind == pick
+                may = pick is not None and ind == pick      # `chain_pick` may return None: this oct is not refined further
             if lvl < levelmax and (must or (may and o["active"])):
                 child = new_oct(lvl + 1, c, o["active"])
                 o["sons"][ind] = child["id"]
@@ -64,7 +64,7 @@ def gen_tree(rng, ndim, levelmin, levelmax, nx, refine_p=0.45, max_octs=60, chai
 
 def gen_output(rng, ndim=None, ncpu=None, levelmin=None, levelmax=None, nboundary=None, exact=True,
                hydro_vars=None, with_grav=None, with_rt=None, with_part=None, with_sink=None,
-               owner_fn=None, max_octs=60, noutput=None, keyb=None, tree_levelmax=None, chain=False):
+               owner_fn=None, max_octs=60, noutput=None, keyb=None, tree_levelmax=None, chain=False, chain_pick=None):
     r = rng
     ndim = ndim or r.choice([1, 2, 3])
     ncpu = ncpu or r.randint(1, 5)
@@ -73,7 +73,7 @@ def gen_output(rng, ndim=None, ncpu=None, levelmin=None, levelmax=None, nboundar
     nboundary = r.choice([0, 0, 1, 2]) if nboundary is None else nboundary
     nx = 3 if nboundary > 0 else 1
     # `tree_levelmax`: the deepest level that may actually be refined (the header's levelmax can be larger)
-    octs = gen_tree(r, ndim, levelmin, min(tree_levelmax or levelmax, levelmax), nx, max_octs=max_octs, chain=chain)
+    octs = gen_tree(r, ndim, levelmin, min(tree_levelmax or levelmax, levelmax), nx, max_octs=max_octs, chain=chain, chain_pick=chain_pick)
     twotondim = 2 ** ndim
     # ownership: active octs -> cpu domains 1..ncpu, boundary octs -> ncpu+1..ncpu+nboundary
     for o in octs:
